@@ -2,6 +2,6 @@ SPECIFICATION Spec
 CONSTANTS
   SharedField = "none"
   NReqs = 2
-  MaxSwitches = 4
+  MaxSwitches = 3
 POSTCONDITION Written
 CHECK_DEADLOCK FALSE
